@@ -15,3 +15,9 @@ open Nima.C05
 #print axioms docInherit_wf
 #print axioms cex_inherit_duplicate
 #print axioms cex_set_plain_full
+#print axioms refusal_set
+#print axioms refusal_rm
+#print axioms refusal_scope_set
+#print axioms refusal_scope_rm
+#print axioms docEx_wf
+#print axioms docEx_coh
